@@ -449,6 +449,7 @@ def check(repo, run, tier):
     g(unitrules.wrapped_node_origin, repo, run, 'C18.R10')
     g(unitrules.node_init_table, repo, run, 'C18.R10')
     g(unitrules.path_node_tables, repo, run, 'C18.R6')
+    g(unitrules.path_tag_table, repo, run, 'C18.R8')
     g.done()
 
 
